@@ -56,9 +56,7 @@ Definition rmx_label (plain : bool) (r : mx_w) (th : mx_thread) : list rc_ev :=
   | XLFast _ _ => [rmx_cas (mx_is_zero r)]             (* Lock: CAS(&m.state, 0, mutexLocked) *)
   | XLLoad _ _ _ _ => []                               (* old = m.state (inside sync: not labelled) *)
   | XLSpin _ _ old => [rmx_cas (mx_w_eqb r old)]       (* CAS(&m.state, old, old|mutexWoken) *)
-  | XLCas _ _ awoke _ old =>
-      if awoke && negb (xk old) then []                (* throw before the CAS *)
-      else [rmx_cas (mx_w_eqb r old)]                  (* CAS(&m.state, old, new) *)
+  | XLCas _ _ _ _ old => [rmx_cas (mx_w_eqb r old)]    (* CAS(&m.state, old, new) *)
   | XLSleep _ _ _ => []                                (* runtime_SemacquireMutex *)
   | XLWoke _ _ _ => []                                 (* old = m.state *)
   | XLHand _ => [RAcqRel rmx_word]                     (* atomic.AddInt32(&m.state, delta) *)
@@ -66,9 +64,8 @@ Definition rmx_label (plain : bool) (r : mx_w) (th : mx_thread) : list rc_ev :=
   | XT2 => rmx_tload plain                             (* TryLock: atomic.LoadInt32 *)
   | XT3 old => rmx_tcas plain (mx_w_eqb r old)         (* TryLock: CAS(old, old|mutexLocked) *)
   | XU1 => [RAcqRel rmx_word]                          (* Unlock: atomic.AddInt32(&m.state, -mutexLocked) *)
-  | XUSlow old =>
-      if (xn old =? 0) || xl old || xk old || xs old then []
-      else [rmx_cas (mx_w_eqb r old)]                  (* unlockSlow: CAS(old, (old-1<<3)|woken) *)
+  | XUSlow old => [rmx_cas (mx_w_eqb r old)]           (* unlockSlow: CAS(old, (old-1<<3)|woken) *)
+  | XULoad => []                                       (* unlockSlow after a failed CAS: old = m.state (inside sync) *)
   | XURel _ => []                                      (* runtime_Semrelease *)
   | XDead => []
   end.
